@@ -28,6 +28,7 @@ F=[
  ("process a file only once when it is reachable", ['C16'], "`stylua --check . a.lua ./a.lua` processed a.lua several times"),
  ("only remember a file as seen once it has been accepted", ['C16'], "follow-up: `stylua . c.txt` must still format the explicitly named c.txt"),
  ("apply --glob to explicitly named files when --respect-ignores", ['C16'], "`-g '**/*.txt' --respect-ignores -- a.lua` formatted a.lua"),
+ ("do not panic when collapsing a function whose body is a single", ['C07'], "collapse_simple_statement FunctionOnly/Always + `function() goto l end` (Lua 5.2+): unreachable!() panic"),
  ("do not let --glob bypass .styluaignore", ['C16'], "`-g '**/*.lua' .` formatted hidden files and files excluded by .styluaignore"),
 ]
 by={}
